@@ -30,6 +30,8 @@ mod c_time;
 mod c_year;
 #[cfg(feature = "c_fixed")]
 mod c_fixed;
+#[cfg(feature = "c_capx")]
+mod c_capx;
 #[cfg(feature = "c_summ")]
 mod c_summ;
 #[cfg(feature = "c_fixedwalk")]
@@ -159,6 +161,8 @@ fn main() {
         "fixed" => if replay { replay_loop(&mut out, c_fixed::replay_line) } else { c_fixed::run(&opts, &mut out) },
         #[cfg(feature = "c_year")]
         "year" => if replay { replay_loop(&mut out, c_year::replay_line) } else { c_year::run(&opts, &mut out) },
+        #[cfg(feature = "c_capx")]
+        "capx" => if replay { replay_loop(&mut out, c_capx::replay_line) } else { c_capx::run(&opts, &mut out) },
         #[cfg(feature = "c_summ")]
         "summ" => if replay { replay_loop(&mut out, c_summ::replay_line) } else { c_summ::run(&opts, &mut out) },
         #[cfg(feature = "c_fixedwalk")]
